@@ -25,6 +25,10 @@ TRUSTED_BASE = [
     "extraction (ExtrOcamlBasic) + ocaml/driver.ml; Rust harness",
 ]
 ASSUMPTIONS = [
+    "edge values on frozen schemas (leaf_edges / use_schemas / edge_pres): the expected outcome class Ok / Err of every `ser` / `de` line is the extracted model's (model_diffs when it differs); "
+    "the property's own statement -- never a panic, crash or timeout -- needs no oracle. Presentations are those a protocol-respecting Serialize impl can make (C19_use_safe's hypothesis): "
+    "serialize_value without a preceding serialize_key is excluded (the crate panics there by design: 'serialize_key should have been called before serialize_value'); "
+    "the f32 narrowing of an f64 presentation is computed Python-side (struct.pack('<f'), overflow to the infinities) as the model's oracle input",
     "'whenever freezing succeeds the schema can be used safely' is proved (C19_use_safe): on every graph freeze accepts neither the deserializer (any input, target, limits) nor the serializer (any value from a protocol-respecting Serialize impl) can panic, and the dynamic / ignoring consumer terminates within the explicit bound; the run additionally exercises every frozen graph with hostile bytes and arbitrary presentations on the crate",
 ]
 
@@ -52,6 +56,149 @@ def diamond(n):
             return '{"type":"record","name":"R%d","fields":[]}' % i
         return '{"type":"record","name":"R%d","fields":[{"name":"a","type":%s},{"name":"b","type":"R%d"}]}' % (i, rec(i + 1), i + 1)
     return rec(0)
+
+# ---------------------------------------------------------------------------------------------
+# "whenever freezing succeeds the resulting schema can be used to serialize and deserialize safely": edge values
+# ---------------------------------------------------------------------------------------------
+import struct as _struct
+def _f64(x):
+    """(f64 BITS NARROWED): NARROWED = (x as f32).to_bits(), the oracle input of the model for a float position (round to nearest,
+    overflow to the infinities; the NaN used here is the canonical quiet one)"""
+    try:
+        nr = _struct.unpack("<I", _struct.pack("<f", x))[0]
+    except OverflowError:
+        nr = 0x7F800000 if x > 0 else 0xFF800000
+    return "(f64 %d %d)" % (_struct.unpack("<Q", _struct.pack("<d", x))[0], nr)
+
+def leaf_edges():
+    """presentations a Serialize impl may hand to ANY leaf position: every serde scalar at its extremes, decimal numbers as strings
+    (non-zero, fractional, negative, at and past rust_decimal's range, not numbers at all), floats (fractions, huge, NaN, infinities,
+    -0), byte strings of the lengths that matter to fixed / duration / decimal (0, 1, 11, 12, 13, 16, 17, 33), empty and long strings,
+    sequences, tuples, maps, structs, variants with indices / names that do not exist"""
+    hx = C.hx
+    e = ["unit", "none", "(bool 1)", "(bool 0)", "(i8 -128)", "(i8 1)", "(u8 255)", "(i16 -32768)", "(u16 65535)", "(i32 0)", "(i32 1)", "(i32 -1)",
+         "(i32 2147483647)", "(i32 -2147483648)", "(u32 4294967295)", "(i64 1)", "(i64 -1)", "(i64 9223372036854775807)", "(i64 -9223372036854775808)",
+         "(u64 0)", "(u64 1)", "(u64 18446744073709551615)", "(i128 1)", "(i128 -170141183460469231731687303715884105728)",
+         "(i128 170141183460469231731687303715884105727)", "(u128 340282366920938463463374607431768211455)", "(u128 1)",
+         "(f32 0)", "(f32 1069547520)", "(f32 2143289344)", "(f32 2139095040)",
+         _f64(0.0), _f64(-0.0), _f64(1.0), _f64(1.5), _f64(-1.5), _f64(0.1), _f64(1e300), _f64(-1e300), _f64(5e-324), _f64(1e28), _f64(7.9e28), _f64(8e28),
+         _f64(float("inf")), _f64(float("-inf")), _f64(float("nan")), _f64(123456789.125), _f64(255.0), _f64(-128.0), _f64(128.0),
+         "(char 48)", "(char 49)", "(char 233)", "(char 128512)"]
+    for t in ["", "0", "1", "-1", "0.5", "-0.5", "0.0", "-0", "00", "1.50", "127", "128", "-128", "-129", "255", "256", "32768", "1e3", "1E-3", " 1", "1 ", "+1", ".5", "5.",
+              "0.0000000000000000000000000001", "79228162514264337593543950335", "-79228162514264337593543950335", "79228162514264337593543950336",
+              "7.9228162514264337593543950335", "123456789012345678901234567890123456789", "0.00000000000000000000000000000000001", "NaN", "inf", "abc", "S0", "A", "N0", "Null",
+              "00000000-0000-0000-0000-000000000000", "é", "x" * 5000, "1" * 40, "0." + "3" * 40]:
+        e.append("(str %s)" % hx(t))
+    for n in [0, 1, 2, 3, 4, 8, 11, 12, 13, 15, 16, 17, 33]:
+        e.append("(bytes %s)" % hx(b"\x00" * n))
+        if n:
+            e.append("(bytes %s)" % hx(b"\xff" * n))
+            e.append("(bytes %s)" % hx(bytes([0x7f]) + b"\xff" * (n - 1)))
+            e.append("(bytes %s)" % hx(bytes([0x80]) + b"\x00" * (n - 1)))
+    e += ["(bytes %s)" % hx(b"\xff\xfe"), "(seq none)", "(seq 0)", "(seq 1)", "(seq 1 (u8 1))", "(seq none (u8 1) (u16 300))", "(seq 12" + " (u8 1)" * 12 + ")",
+          "(seq none unit unit)", "(tuple)", "(tuple (u32 1) (u32 2) (u32 3))", "(tuple (u32 1) (u32 2))", "(tuple (u64 1) (u64 2) (u64 4294967296))",
+          "(tuple (i32 -1) (i32 2) (i32 3))", "(tuple_struct %s (u32 1) (u32 2) (u32 3))" % hx("D"), "(map none)", "(map 1)", "(map 0 (entry (str %s) (i32 1)))" % hx("k"),
+          "(map none (key (str %s)))" % hx("k"), "(map none (entry (i32 1) (i32 1)))",       # (a value without its key is a protocol violation of the Serialize impl: excluded, C19_use_safe assumes the serde protocol)
+          "(struct %s 0)" % hx("N0"), "(struct %s 3 (%s (u32 1)) (%s (u32 2)) (%s (u32 3)))" % (hx("Duration"), hx("months"), hx("days"), hx("milliseconds")),
+          "(struct %s 3 (%s (u64 4294967296)) (%s (u32 2)) (%s (u32 3)))" % (hx("Duration"), hx("months"), hx("days"), hx("milliseconds")),
+          "(struct %s 2 (%s (u32 1)) (%s (u32 1)))" % (hx("Duration"), hx("months"), hx("months")),
+          "(struct %s 1 (%s unit))" % (hx("X"), hx("f0")),
+          "(unit_struct %s)" % hx("S0"), "(unit_variant %s 0 %s)" % (hx("E"), hx("S0")), "(unit_variant %s 4294967295 %s)" % (hx("E"), hx("NOPE")),
+          "(unit_variant %s 0 %s)" % (hx("E"), hx("")), "(newtype_struct %s (str %s))" % (hx("W"), hx("1")), "(newtype_variant %s 9 %s (i32 1))" % (hx("U"), hx("Long")),
+          "(newtype_variant %s 0 %s (str %s))" % (hx("U"), hx("Decimal"), hx("1")), "(some (str %s))" % hx("1"), "(some none)", "(some (some (i32 1)))",
+          "(tuple_variant %s 0 %s (i32 1))" % (hx("U"), hx("Array")), "(struct_variant %s 0 %s 0)" % (hx("U"), hx("N0")), "fail"]
+    return e
+
+def use_schemas(rng):
+    """schemas freeze accepts whose leaves are the degenerate / boundary ones: every leaf kind (gen.leaf_kind_schemas) plus decimal on
+    fixed of size 0, 1, 17, 32, decimal with scale above the precision and above 28, duration on fixed(12) -- and `duration` written on a
+    fixed of another size or on bytes (not a duration then) --, enum without symbols, fixed of size 0, logical types on base types they
+    do not apply to; alone and below a record field / an optional / an array / a map -> [(label, nodes)]"""
+    N = G.Node
+    leaves = list(G.leaf_kind_schemas())
+    for sz in (0, 1, 17, 32):
+        for sc, pr in ((0, 1), (2, 5), (30, 3)):
+            leaves.append(("decimal-fixed-%d-scale-%d" % (sz, sc), [N("fixed", name="DF", size=sz, lt=("decimal", sc, pr))]))
+    leaves.append(("decimal-bytes-scale-40", [N("bytes", lt=("decimal", 40, 3))]))
+    leaves.append(("decimal-bytes-precision-0", [N("bytes", lt=("decimal", 0, 0))]))
+    for sz in (0, 11, 13):
+        leaves.append(("duration-on-fixed-%d" % sz, [N("fixed", name="Du", size=sz, lt="duration")]))
+    leaves.append(("duration-on-bytes", [N("bytes", lt="duration")]))
+    leaves.append(("enum-0", [N("enum", name="E0", symbols=[])]))
+    leaves.append(("uuid-on-bytes", [N("bytes", lt="uuid")]))
+    leaves.append(("decimal-on-string", [N("string", lt=("decimal", 2, 5))]))
+    leaves.append(("date-on-long", [N("long", lt="date")]))
+    leaves.append(("big-decimal-on-string", [N("string", lt="big-decimal")]))
+    leaves.append(("decimal-on-int", [N("int", lt=("decimal", 0, 5))]))
+    out = []
+    for label, ns in leaves:
+        leaf = ns[0]
+        out.append((label, [leaf]))
+        out.append((label + "/field", [N("record", name="ns.Holder", fields=[("f0", 1)]), leaf]))
+        out.append((label + "/optional", [N("union", variants=[1, 2]), N("null"), leaf]))
+        out.append((label + "/array", [N("array", items=1), leaf]))
+        out.append((label + "/map", [N("map", values=1), leaf]))
+    return out
+
+def wrap_for(label, p):
+    """the presentation that carries leaf presentation p to the leaf of a use_schemas schema"""
+    if label.endswith("/field"):
+        return "(struct %s 1 (%s %s))" % (C.hx("Holder"), C.hx("f0"), p)
+    if label.endswith("/optional"):
+        return p
+    if label.endswith("/array"):
+        return "(seq 1 %s)" % p
+    if label.endswith("/map"):
+        return "(map 1 (entry (str %s) %s))" % (C.hx("k"), p)
+    return p
+
+def edge_pres(rng, nodes, k, edges, depth=0):
+    """a presentation aimed at node k of an ARBITRARY frozen node vector (cycles, unions in unions ...): the shape the node's kind
+    expects (so that nested nodes are reached), with an edge presentation at any position with some probability and always at the leaves"""
+    if k >= len(nodes) or depth > 5 or rng.random() < 0.15:
+        return rng.choice(edges)
+    n = nodes[k]
+    kind = n.kind()
+    hx = C.hx
+    if kind == "record":
+        fs = [(f, edge_pres(rng, nodes, fk, edges, depth + 1)) for f, fk in n.fields]
+        r = rng.random()
+        if r < 0.1 and fs:
+            fs.append(fs[0])
+        elif r < 0.2 and fs:
+            fs.pop()
+        elif r < 0.3:
+            rng.shuffle(fs)
+        if rng.random() < 0.2:
+            return "(map %s%s)" % (rng.choice(["none", str(len(fs))]), "".join(" (entry (str %s) %s)" % (hx(f), v) for f, v in fs))
+        return "(struct %s %d%s)" % (hx(n.name.split(".")[-1] or "R"), len(fs), "".join(" (%s %s)" % (hx(f), v) for f, v in fs))
+    if kind == "array":
+        vs = [edge_pres(rng, nodes, n.items, edges, depth + 1) for _ in range(rng.choice([0, 1, 1, 2]))]
+        return "(seq %s%s)" % (rng.choice(["none", str(len(vs)), str(len(vs) + 1)]), "".join(" " + v for v in vs))
+    if kind == "map":
+        vs = [edge_pres(rng, nodes, n.values, edges, depth + 1) for _ in range(rng.choice([0, 1, 1, 2]))]
+        return "(map %s%s)" % (rng.choice(["none", str(len(vs))]), "".join(" (entry (str %s) %s)" % (hx("k%d" % i), v) for i, v in enumerate(vs)))
+    if kind == "union":
+        if not n.variants:
+            return rng.choice(edges)
+        i = rng.randrange(len(n.variants))
+        p = edge_pres(rng, nodes, n.variants[i], edges, depth + 1)
+        r = rng.random()
+        if r < 0.5:
+            return p
+        if r < 0.65:
+            return "(some %s)" % p
+        import present
+        try:
+            tn = present.type_name(nodes, n.variants[i]) if n.variants[i] < len(nodes) else "X"
+        except Exception:
+            tn = "X"
+        return "(newtype_variant %s %d %s %s)" % (hx("U"), rng.choice([i, i, 0, len(n.variants)]), hx(tn), p)
+    if kind == "enum" and n.symbols and rng.random() < 0.5:
+        i = rng.randrange(len(n.symbols))
+        return rng.choice(["(str %s)" % hx(n.symbols[i]), "(unit_variant %s %d %s)" % (hx("E"), i, hx(n.symbols[i])), "(u32 %d)" % i,
+                           "(u32 %d)" % len(n.symbols), "(i64 -1)", "(u64 18446744073709551615)"])
+    return rng.choice(edges)
 
 def run(ctx):
     rng = random.Random(ctx["seed"] * 1000003 + 19)
@@ -125,6 +272,27 @@ def run(ctx):
                                                                       rng.choice(["slice", "(chunks 3)"]), rng.choice([4, 1000]), rng.choice([0, 3, 64])))
             use_lines.append("ser %s %s" % (sch, rng.choice(["unit", "(i32 0)", "(str x61)", "(seq none)", "(map none)", "(struct %s 0)" % C.hx("N0"),
                                                              "(some (seq 1 unit))", "(bytes x00)", "(bool 1)", "(f64 0 0)"])))
+    # edge values through every frozen graph (C19_use_safe: Ok or Err, never a panic; the model's ser / de say which, where modelled)
+    edges = leaf_edges()
+    rng_main = rng
+    rng = random.Random(ctx["seed"] * 1000003 + 1919)       # own stream: the draws of the families below (texts ...) stay what they were
+    frozen = [gof[l] for l, ri in zip(glines, gi) if l.startswith("freeze ") and ri.startswith("(ok")
+              and not any(key >= len(gof[l]) for x in gof[l] for key in keys_of(x))]
+    for g in frozen:
+        sch = G.schema_sx(g)
+        for _ in range(3):
+            use_lines.append("ser %s %s" % (sch, edge_pres(rng, g, 0, edges)))
+    uschemas = use_schemas(rng)
+    for label, g in uschemas:
+        sch = G.schema_sx(g)
+        pick = edges if (quick and "/" not in label) or not quick else rng.sample(edges, 25)
+        for p in pick:
+            use_lines.append("ser %s %s" % (sch, wrap_for(label, p)))
+        for _ in range(4):
+            b = bytes(rng.choice([0, 1, 2, 3, 0x18, 0x20, 0x22, 0x80, 0xFF, 0x7F, rng.randrange(256)]) for _ in range(rng.choice([0, 1, 2, 12, 13, 17, 24, 40])))
+            use_lines.append("de %s %s %s %s (cfg %d %d 4096)" % (sch, rng.choice(["any", "ignored", "string", "bytes", "f64", "u64", "i128", "(seq any)", "(option any)"]),
+                                                                  C.hx(b), rng.choice(["slice", "(chunks 3)"]), rng.choice([4, 1000]), rng.choice([0, 3, 64])))
+    rng = rng_main
     ui = C.run_parallel(C.AVRODRIVE, use_lines, timeout=240)
     um = C.run_parallel(C.AVROMODEL, use_lines, timeout=240)
     for line, ri, rm in zip(use_lines, ui, um):
@@ -269,7 +437,10 @@ def run(ctx):
             "rule": "node vectors over the public node types with arbitrary keys (dangling, self-referencing, shared; keys at the boundary len-1 / len / len+1 "
                     "held by nodes the root does not reach: freeze Ok => every key in range, C19_freeze_keys), empty vectors, duplicate "
                     "and degenerate names, logical annotations anywhere: freeze, fingerprint and JSON rendering (serde_json::to_string(&SchemaMut), writer limited to 4 MiB) must return Ok/Err (each run in a process whose "
-                    "death or timeout is a result); every frozen schema is then used on hostile bytes (small limits) and arbitrary presentations; "
+                    "death or timeout is a result); every frozen schema is then used on hostile bytes (small limits) and arbitrary presentations, "
+                    "and with presentations shaped after the graph whose leaves are edge values (leaf_edges: every serde scalar at its extremes, non-zero / fractional / out-of-range decimals as strings and f64, "
+                    "byte strings of the boundary lengths, out-of-range enum indices, wrong shapes); every leaf kind incl. the degenerate ones (use_schemas: decimal on fixed of size 0 / 1 / 17 / 32, scale above precision, duration on fixed 12 and on other sizes, enum without symbols), "
+                    "alone and below a field / optional / array / map, gets EVERY edge presentation and hostile bytes under several targets: Ok or Err, never a panic; outcome = the model's ser / de; "
                     "texts: random JSON of schema-like shape, valid documents damaged at the text level, nesting 1..5000 (127/128/129 around "
                     "serde_json's limit), the nested-shared-record family up to depth 60 (cycle check cost), records containing themselves (unconditionally = error, or only through "
                     "unions / arrays / maps = accepted; cycle through the outermost record or strictly below it, several records, envelopes, namespaces, definitions nested or side by side with backward / forward references); "
